@@ -160,6 +160,7 @@ func (g *gen) structure(n *types.Named, st *types.Struct, from *tr) string {
 		for j := 0; j < st.NumFields(); j++ {
 			sb.WriteString(fmt.Sprintf("  %s : %s\n", lname(st.Field(j).Name()), from.leanType(st.Field(j).Type())))
 		}
+		sb.WriteString("deriving Inhabited\n") // `var x T` is the all-zero value: BitVec, Int and Bool default to 0 / false
 		g.out = append(g.out, sb.String())
 	}
 	return q
@@ -300,16 +301,53 @@ func (t *tr) expr(e ast.Expr) string {
 			return "(decide (" + a + " " + x.Op.String() + " " + b + "))"
 		}
 		return t.bad(e, "binary "+x.Op.String())
+	case *ast.CompositeLit:
+		// a struct literal of supported fields: positional or keyed; missing fields take their zero value
+		n, ok := tv.Type.(*types.Named)
+		if !ok {
+			return t.bad(e, "composite literal")
+		}
+		st, ok := n.Underlying().(*types.Struct)
+		if !ok {
+			return t.bad(e, "composite literal")
+		}
+		q := t.g.structure(n, st, t)
+		vals := map[string]string{}
+		for i, el := range x.Elts {
+			if kv, ok := el.(*ast.KeyValueExpr); ok {
+				if id, ok := kv.Key.(*ast.Ident); ok {
+					vals[id.Name] = t.expr(kv.Value)
+					continue
+				}
+				return t.bad(e, "composite literal key")
+			}
+			if i < st.NumFields() {
+				vals[st.Field(i).Name()] = t.expr(el)
+			}
+		}
+		var parts []string
+		for i := 0; i < st.NumFields(); i++ {
+			f := st.Field(i)
+			v, ok := vals[f.Name()]
+			if !ok {
+				v = t.zero(f.Type())
+			}
+			parts = append(parts, lname(f.Name())+" := "+v)
+		}
+		return "({ " + strings.Join(parts, ", ") + " } : " + q + ")"
 	case *ast.CallExpr:
 		// conversion?
 		if ftv, ok := t.info.Types[x.Fun]; ok && ftv.IsType() && len(x.Args) == 1 {
 			return t.convert(x.Args[0], ftv.Type)
 		}
 		if id, ok := x.Fun.(*ast.Ident); ok {
-			if id.Name == "max" || id.Name == "min" {
-				if len(x.Args) == 2 {
-					return "(" + id.Name + " " + t.expr(x.Args[0]) + " " + t.expr(x.Args[1]) + ")"
+			if _, isBuiltin := t.info.Uses[id].(*types.Builtin); isBuiltin && (id.Name == "max" || id.Name == "min") && len(x.Args) >= 1 {
+				// min/max of any arity: folded from the left
+				acc := t.expr(x.Args[0])
+				for _, a := range x.Args[1:] {
+					acc = "(" + id.Name + " " + acc + " " + t.expr(a) + ")"
 				}
+				return acc
 			}
 			if obj, ok := t.info.Uses[id].(*types.Func); ok && obj.Pkg() != nil {
 				if q, ok := t.g.need(obj); ok {
